@@ -571,7 +571,7 @@ CORPUS = [
      'xkind': 'f64', 'si': [[0, '3/1', '2/1'], [0, '-1/1', '3/1'], [0, '1/1', '2/1']], 'quant': 64},
     # doctest points
     {'kind': 'wrap', 'cls': 'Dortmund', 'chems': ['Water', 'Ethanol'], 'x': [0.5, 0.5], 'T': 350.,
-     'xkind': 'list', 'si': [[1, '3/1', '2/1'], [2, '-1/1', '3/1'], [0, '1/1', '2/1']], 'quant': None},
+     'xkind': 'list', 'si': [[1, '3/1', '2/1'], [0, '-1/1', '3/1'], [0, '1/1', '2/1']], 'quant': 2 ** 20},
     {'kind': 'wrap', 'cls': 'NIST', 'chems': ['Water', 'Ethanol'], 'x': [0.5, 0.5], 'T': 350.,
      'xkind': 'list', 'si': [[0, '3/1', '2/1'], [0, '-1/1', '3/1'], [2, '1/1', '2/1']], 'quant': 2 ** 20},
 ]
